@@ -675,6 +675,21 @@ def _random_case(rng, tier):
                 ops.append(["run", kw, starters])
             else:
                 ops.append(["run", kw])
+                if rng.random() < 0.4:
+                    # the SAME run again after the output view (or the input view) has been edited: the second
+                    # run may be answered from the composite's cache, the returned dict is still that of the
+                    # outputs as they are exposed NOW
+                    side = "out" if rng.random() < 0.8 else "in"
+                    if rng.random() < 0.6 or sim.umap[side] is None:
+                        m = _gen_map(rng, sim, side)
+                        ops.append(["map", side, m, "dict"])
+                        names = [v for v in (m or {}).values() if v is not None]
+                        if len(set(names)) == len(names):
+                            sim.umap[side] = m
+                    else:
+                        mode = rng.choice(["getter", "held"])
+                        ops.append(["medit", side, mode, _gen_batch(rng, sim, side, mode)])
+                    ops.append(["run", {}])
         elif r < 0.91:
             # a child leaves / moves / joins by PARENT ASSIGNMENT
             q = rng.random()
@@ -797,6 +812,32 @@ def _live_family():
                                    ["medit", "in", mode, [e1, e2]], ["assign", "in", "n0__b", "v"], ["run", {}]]}
 
 
+RERUN_EDITS = [
+    ["map", "out", {"n1__o": "res"}, "dict"], ["map", "out", {"n0__o": "mid"}, "dict"],
+    ["map", "out", {"n1__o": None}, "dict"], ["map", "out", {"n0__o": "mid", "n1__o": "res", "n2__o": None}, "bidict"],
+    ["map", "out", None, "dict"], ["map", "out", {}, "dict"],
+    ["medit", "out", "getter", [["set", "n1__o", "res"]]], ["medit", "out", "getter", [["set", "n2__o", None]]],
+    ["medit", "out", "held", [["set", "n0__o", "mid"], ["set", "n1__o", None]]], ["medit", "out", "getter", [["clear"]]],
+    ["medit", "out", "held", [["del", "n1__o"]]], ["medit", "out", "getter", [["invset", "z", "n2__o"]]],
+    ["map", "in", {"n0__a": "x"}, "dict"], ["remove", "n2"], ["disconnect", "k1.a", "k0.o"], ["relabel", "k2", "m9", "add_child"],
+]
+
+
+def _rerun_family():
+    """n0 -> n1, n2 apart; run, edit the view (output map assigned / edited in place, input map, a child removed, a
+    link cut, a re-label), run AGAIN with the same input (a cache hit where the library keeps one), for every
+    start map x every edit x every second edit: the returned dict is that of wf.outputs as exposed at that moment"""
+    for start in (None, {"n1__o": "z"}, {"n0__o": "q", "n2__o": None}):
+        for e1 in RERUN_EDITS:
+            for e2 in (None, *RERUN_EDITS[:6]):
+                ops = [["add", "F", "n0", "k0"], ["add", "F", "n1", "k1"], ["add", "F", "n2", "k2"],
+                       ["connect", "assign", "k1.a", "k0.o"], ["map", "out", start, "dict"], ["run", {"n0__a": 1}],
+                       e1, ["run", {}]]
+                if e2 is not None:
+                    ops += [e2, ["run", {}]]
+                yield {"ops": ops}
+
+
 def _load_family():
     """a -> b -> c with b in the `x = f(x); return x` idiom (same-named input and output): which links exist, a
     map over b's channels or not, which child is saved, edited and loaded back in place; then a run"""
@@ -818,6 +859,9 @@ def _load_family():
 
 def gen_cases(rng, tier):
     for c in _load_family():
+        yield c
+    rerun = list(_rerun_family())
+    for c in (rng.sample(rerun, 60) if tier == "quick" else rerun):
         yield c
     fam = list(_exhaustive_family())
     live = list(_live_family())
@@ -904,6 +948,12 @@ def corpus():
                    ["run", {}, ["k1"]], ["map", "out", {"n0__o": None}, "dict"], ["run", {"n1__a": 20}, ["k1"]],
                    ["run", {}]]}
 
+    # the same run again after the output map changed (assigned, then edited in place): the second run may be a
+    # cache hit, its return value is the dictionary of the outputs as they are exposed now
+    yield {"ops": [["add", "F", "n0", "k0"], ["add", "F", "n1", "k1"], ["connect", "assign", "k1.a", "k0.o"],
+                   ["run", {"n0__a": 1}], ["map", "out", {"n1__o": "res", "n0__o": "mid"}, "dict"], ["run", {}],
+                   ["medit", "out", "getter", [["set", "n0__o", None]]], ["run", {}], ["map", "out", None, "dict"],
+                   ["run", {}]]}
     # a wired child leaves by `child.parent = None`, another moves to a second workflow and comes back: the
     # former siblings' channels re-open, the workflow runs without them
     yield {"ops": [["add", "F", "a", "k0"], ["add", "F", "b", "k1"], ["add", "F", "c", "k2"],
